@@ -53,6 +53,24 @@ Definition tkey_eqb (a b : tree) : bool :=
   | _, _ => false
   end.
 
+(* decidable equality on snapshots *)
+Fixpoint tree_eqb (a b : tree) : bool :=
+  match a, b with
+  | TInt x, TInt y => (x =? y)%Z
+  | TStr x, TStr y => str_eqb x y
+  | TNone, TNone => true
+  | TCut, TCut => true
+  | TNode k1 l1, TNode k2 l2 =>
+      (k1 =? k2)%Z &&
+      (fix go (l1 l2 : list (tree * tree)) : bool :=
+         match l1, l2 with
+         | [], [] => true
+         | (a1, b1) :: t1, (a2, b2) :: t2 => tree_eqb a1 a2 && tree_eqb b1 b2 && go t1 t2
+         | _, _ => false
+         end) l1 l2
+  | _, _ => false
+  end.
+
 Fixpoint tassoc (k : tree) (l : list (tree * tree)) : option tree :=
   match l with
   | [] => None
@@ -641,6 +659,82 @@ Definition last_nodes (st : store) (s : val) : val :=
   | [] => VNone
   end.
 
+(* ---- results of real reads are DAGs: the start and the end node of a <span> carry ONE content dict ----------------------
+   (dfxp/base.py _convert_span_to_nodes, sami.py _translate_span: `args` is passed to both create_style calls; SAMI <i>/<b>/<u>
+   and the SCC reader build two dict literals instead).  Which end nodes share is part of the RESULT the harness hands to
+   the model: in the result tree the content cell of such an end node is the marker TNode KShare [].  The read model
+     1. builds the tree with every marker replaced by the content tree of the matching start node (stack discipline),
+     2. then makes the end node's content slot point to the start node's dict - guarded by "both dicts have the same
+        snapshot at every depth <= FUEL" (always true for a result of a real read: it is one object there). *)
+Definition KShare := 101.
+
+Definition is_share (t : tree) : bool := match t with TNode k _ => k =? KShare | _ => false end.
+Definition node_is_style (n : tree) : bool := match tfield n 1 with TInt 2 => true | _ => false end.
+
+Fixpoint unshare_nodes (ns : list (tree * tree)) (stack : list tree) : list (tree * tree) :=
+  match ns with
+  | [] => []
+  | (TNone, n) :: r =>
+      if node_is_style n then
+        if is_true (tfield n 3) then (TNone, n) :: unshare_nodes r (tfield n 2 :: stack)
+        else
+          let top := match stack with d :: _ => d | [] => TNode KDict [] end in
+          (TNone, if is_share (tfield n 2) then tset_field n 2 top else n) :: unshare_nodes r (tl stack)
+      else (TNone, n) :: unshare_nodes r stack
+  | kv :: r => kv :: unshare_nodes r stack
+  end.
+
+Definition unshare_cap (cap : tree) : tree :=
+  match tfield cap 3 with
+  | TNode k its => tset_field cap 3 (TNode k (unshare_nodes its []))
+  | _ => cap
+  end.
+
+Definition unshare (t : tree) : tree :=
+  match tfield t 1 with
+  | TNode kd its => tset_field t 1 (TNode kd (map (fun kv => (fst kv, map_elems unshare_cap (snd kv))) its))
+  | _ => t
+  end.
+
+Definition has_field (st : store) (v k : val) : bool :=
+  match assoc k (items_of st v) with Some _ => true | None => false end.
+
+Definition same_snapshots (st : store) (a b : val) : bool :=
+  forallb (fun m => tree_eqb (snap m st a) (snap m st b)) (seq 0 (S FUEL)).
+
+(* heap nodes and (marked) tree nodes of one caption walked in parallel; stack = content dicts of the open starts *)
+Fixpoint share_nodes (st : store) (hs : list val) (ts : list tree) (stack : list val) : store :=
+  match hs, ts with
+  | h :: hr, n :: tr =>
+      if node_is_style n then
+        if is_true (tfield n 3) then share_nodes st hr tr (field st h (VInt 2) :: stack)
+        else
+          let st' := match stack with
+                     | d :: _ => if is_share (tfield n 2) && has_field st h (VInt 2)
+                                    && same_snapshots st d (field st h (VInt 2))
+                                 then set_field st h (VInt 2) d else st
+                     | [] => st
+                     end in
+          share_nodes st' hr tr (tl stack)
+      else share_nodes st hr tr stack
+  | _, _ => st
+  end.
+
+Fixpoint share_caps (st : store) (hcs : list val) (tcs : list tree) : store :=
+  match hcs, tcs with
+  | hc :: hr, tc :: tr =>
+      share_caps (share_nodes st (elems st (field st hc (VInt 3))) (telems (tfield tc 3)) []) hr tr
+  | _, _ => st
+  end.
+
+Fixpoint share_langs (st : store) (hls : list (val * val)) (tls : list (tree * tree)) : store :=
+  match hls, tls with
+  | hkv :: hr, tkv :: tr => share_langs (share_caps st (elems st (snd hkv)) (telems (snd tkv))) hr tr
+  | _, _ => st
+  end.
+
+Definition share_set (st : store) (s : val) (t : tree) : store := share_langs st (set_langs st s) (set_langs_t t).
+
 (* SCC: PreCaption objects (kind 7) are kept by the reader; get_all() builds a Caption per PreCaption of the stash
    passing the very same nodes / style / layout objects *)
 Definition KPre := 7.
@@ -675,9 +769,11 @@ Definition read (c : cfg) (rk : Z) (ri : rinst) (t : tree) (st : store) : store 
     let (st6, s) := new_obj st5 KSet [(VInt 1, d); (VInt 2, sty); (VInt 3, VNone)] in
     (st6, mkRinst stash VNone, s)
   else
-    let (st1, s) := build (dflt c) (mark_defaults rk t) st in
-    let last := if (rk =? R_DFXP) || (rk =? R_SAMI) then last_nodes st1 s else VNone in
-    (st1, mkRinst [] last, s).
+    let tm := mark_defaults rk t in
+    let (st1, s) := build (dflt c) (unshare tm) st in
+    let st2 := share_set st1 s tm in
+    let last := if (rk =? R_DFXP) || (rk =? R_SAMI) then last_nodes st2 s else VNone in
+    (st2, mkRinst [] last, s).
 
 (* ---- edits through the public API ------------------------------------------------------------------------------ *)
 Inductive edit : Type :=
